@@ -4,7 +4,7 @@ set -u
 seed=$1; prop=$2; only=${3:-}; tier=${4:-quick}
 cd /verif
 git -C /repo diff --quiet || { echo "/repo not clean"; exit 9; }
-git -C /repo apply seeded/$seed/patch.diff || exit 9
+git -C /repo apply /verif/seeded/$seed/patch.diff || exit 9
 cp -r evidence /var/tmp/evidence_keep_$$ 2>/dev/null
 if [ -n "$only" ]; then VERIF_ONLY=$only ./check $prop --tier $tier > /var/tmp/seedcheck_$seed.txt 2>&1; else ./check $prop --tier $tier > /var/tmp/seedcheck_$seed.txt 2>&1; fi
 rc=$?
